@@ -6,10 +6,14 @@
    all orders.
 
    Stages (file : function) and their model
-     0    antismash/common/hmm_rule_parser/cluster_prediction.py : filter_results, `best = list(group)[0]` on a set of
-          identity-hashed HSPs -> filter_gene_o (C13.Model.fr_cds under a rank assignment);
-          CDSResults.annotate, loop over the Set[str] of definition domains -> annotate_core
-          antismash/modules/terpene/terpene_analysis.py : filter_incomplete (start-only sort key) -> terpene_filter_o
+     0    antismash/common/hmm_rule_parser/cluster_prediction.py : filter_results on a set of identity-hashed HSPs; the
+          best hit of a group is searched in the order of the gene's hit list since the repair of
+          filter_results_score_tie_set_order (only the removal loop still iterates the set)
+          -> filter_gene_o (C13.Model.fr_cds under a rank assignment);
+          CDSResults.annotate, loop over sorted(Set[str] of definition domains) (repair of
+          annotate_definition_domains_set_order) -> annotate_core
+          antismash/modules/terpene/terpene_analysis.py : filter_incomplete (total sort key since the repair of
+          terpene_start_tie_set_order) -> terpene_filter_o
      1/2  antismash/common/hmmscan_refinement.py : gather_by_query + refine_hmmscan_results
           (neighbour / default mode)           -> C13.Model.refine_table at the order `o`
           (pre-repair variant with the start-only sort key: refine_gene_startkey)
@@ -29,7 +33,10 @@
      6    cluster_prediction.py : CDSResults.to_json `sorted(set of str)`;
           antismash/detection/hmm_detection/__init__.py : run_on_record `sorted(get_rule_names())`
                                                -> sorted_set (pre-repair: list_of_set);
-          antismash/outputs/html/js.py : convert_regions `list(region.product_categories)` -> list_of_set (current code)
+          antismash/outputs/html/js.py : convert_regions `sorted(region.product_categories)` -> sorted_set (before the
+          repair of html_product_categories_set_order: list_of_set); the terpene module's
+          `tuple(sorted(subtypes))` and build_intersection's tuples sorted by compound name (repairs of
+          terpene_subtypes_set_order / terpene_reaction_intersection_set_order) are sorted_set as well
      7    antismash/common/secmet/features/feature.py : Feature.to_biopython `sorted(notes)`,
           `sorted(quals.items())`              -> sorted_list
    No proofs in this file. *)
@@ -82,18 +89,25 @@ Definition refine_gene_startkey (neighbour : bool) (L : Z -> Z) (reg : Z -> bool
 (* antismash/modules/terpene/terpene_analysis.py : filter_incomplete
        results_by_id = gather_by_query(hmmscan_results)
        for cds, results in results_by_id.items():
-           refined = sorted(list(results), key=lambda result: result.query_start)      (start ONLY: the key that
-           refined = remove_incomplete(refined, hmm_lengths)                            repair 6f19f05d replaced in
-           if refined: refined_results[cds] = refined                                   refine_hmmscan_results)
+           refined = sorted(list(results), key=lambda result: (result.query_start, result.query_end, result.hit_id,
+                                                               -result.bitscore, result.evalue))
+           refined = remove_incomplete(refined, hmm_lengths)       (the total key of refine_hmmscan_results = C13.Model.canonical
+           if refined: refined_results[cds] = refined               since the repair of terpene_start_tie_set_order)
    `o` = the hits gene by gene in the enumeration order of the gather_by_query sets; the result is observed key-sorted *)
 Definition terpene_gene (L : Z -> Z) (reg : Z -> bool) (o : list C13.Model.hit) : list C13.Model.hit :=
+  C13.Model.remove_incomplete L reg (C13.Model.canonical o).
+(* the code before the repair: key = query_start only *)
+Definition terpene_gene_startkey (L : Z -> Z) (reg : Z -> bool) (o : list C13.Model.hit) : list C13.Model.hit :=
   C13.Model.remove_incomplete L reg (sort_by C13.Model.start_lt (C13.Model.dedupe C13.Model.hit_eqb o)).
-Definition terpene_filter_o (t : C13.Model.ptable) (o : list (Z * C13.Model.hit)) : res (list (Z * list C13.Model.hit)) :=
+Definition terpene_filter_with (gene : (Z -> Z) -> (Z -> bool) -> list C13.Model.hit -> list C13.Model.hit)
+    (t : C13.Model.ptable) (o : list (Z * C13.Model.hit)) : res (list (Z * list C13.Model.hit)) :=
   if forallb (fun gh : Z * C13.Model.hit => C13.Model.ppresent t (C13.Model.prof (snd gh))) o
   then Ok (filter (fun gr : Z * list C13.Model.hit => match snd gr with [] => false | _ => true end)
-                  (map (fun g => (g, terpene_gene (C13.Model.plen t) (C13.Model.preg t) (C13.Model.hits_of g o)))
+                  (map (fun g => (g, gene (C13.Model.plen t) (C13.Model.preg t) (C13.Model.hits_of g o)))
                        (C13.Model.genes_of o)))
   else Err E_Key.
+Definition terpene_filter_startkey := terpene_filter_with terpene_gene_startkey.
+Definition terpene_filter_o := terpene_filter_with terpene_gene.
 
 (* ------------------------------------------------------------------ stage 3: anchoring genes *)
 (* a CDS feature that does not cross the origin: identity, location.start, location.end
@@ -134,11 +148,22 @@ Definition upre_lt (a b : uproto) : bool := lex3 (upre_key a) (upre_key b).
 Definition unique_linear (o : list uproto) : list uproto := sort_by u_lt (sort_by upre_lt o).
 (* the code before the repair *)
 Definition unique_linear_unrepaired (o : list uproto) : list uproto := sort_by u_lt o.
-(* `reduction`: collection.start < record_length / 2  <->  2 * start < record_length *)
+(* `reduction`: collection.start < record_length / 2  <->  2 * start < record_length;
+   key (shifted start, -len(location), product, core_start, core_end): the two core components are the repair of
+   unique_crossing_same_product_set_order.  red_key = the first three components (the documented order),
+   red_key5 = the whole key, compared as Python compares tuples *)
 Definition red_key (N : Z) (p : uproto) : Z * Z * Z :=
   ((if 2 * ust p <? N then ust p + N else ust p), - ulen p, uprod p).
-Definition red_lt (N : Z) (a b : uproto) : bool := lex3 (red_key N a) (red_key N b).
+Definition red_key5 (N : Z) (p : uproto) : (Z * Z * Z) * (Z * Z) := (red_key N p, (ucs p, uce p)).
+Definition eq3 (a b : Z * Z * Z) : bool :=
+  (fst (fst a) =? fst (fst b)) && (snd (fst a) =? snd (fst b)) && (snd a =? snd b).
+Definition lex32 (a b : (Z * Z * Z) * (Z * Z)) : bool :=
+  lex3 (fst a) (fst b) || (eq3 (fst a) (fst b) && lex2 (snd a) (snd b)).
+Definition red_lt (N : Z) (a b : uproto) : bool := lex32 (red_key5 N a) (red_key5 N b).
 Definition unique_crossing (N : Z) (o : list uproto) : list uproto := sort_by (red_lt N) o.
+(* the code before the repair: key without the cores *)
+Definition unique_crossing_unrepaired (N : Z) (o : list uproto) : list uproto :=
+  sort_by (fun a b => lex3 (red_key N a) (red_key N b)) o.
 Definition unique_protoclusters (crossing : bool) (N : Z) (o : list uproto) : list uproto :=
   if crossing then unique_crossing N o else unique_linear o.
 
@@ -163,9 +188,12 @@ Fixpoint no_equal_coords (l : list uproto) : bool :=
   end.
 
 (* ------------------------------------------------------------------ stage 0: filter_results (cluster_prediction.py) *)
-(* `best = list(group)[0]; for hit in group: if hit.bitscore > best.bitscore: best = hit` on a SET of identity-hashed HSP
-   objects: C13.Model.filter_results models the set order by the field f_rank of every hit (ascending rank = iteration
-   order).  Another memory layout = another rank assignment `rho` (by object identity), everything else unchanged. *)
+(* the groups of overlapping hits are SETS of identity-hashed HSP objects: C13.Model.filter_results models the set order by
+   the field f_rank of every hit (ascending rank = iteration order).  Another memory layout = another rank assignment
+   `rho` (by object identity), everything else unchanged.  Since the repair of filter_results_score_tie_set_order
+   (`ordered = [hit for hit in cdsresults if hit in group]; best = ordered[0]; for hit in ordered: ...`) only the removal
+   loop `for hit in group` follows the ranks; before it the search for the best hit did (`best = list(group)[0]`),
+   C13.Model.group_pass_unrepaired. *)
 Definition rerank (rho : Z -> Z) (h : C13.Model.fhit) : C13.Model.fhit :=
   C13.Model.mkFH (C13.Model.f_id h) (C13.Model.f_prof h) (C13.Model.f_hs h) (C13.Model.f_he h) (C13.Model.f_sc h)
                  (rho (C13.Model.f_id h)).
@@ -175,18 +203,37 @@ Definition filter_gene_o (rho : Z -> Z) (eqg : list Z) (results mine : list C13.
   | (Ok (r, _), m) => Ok (map C13.Model.f_id r, map C13.Model.f_id m)
   | (Err k, _) => Err k
   end.
+(* the code before the repair: `best = list(group)[0]; for hit in group: if hit.bitscore > best.bitscore: best = hit` *)
+Definition group_pass_unrepaired (s : list C13.Model.fhit * list C13.Model.fhit * list Z) (g : list C13.Model.fhit)
+  : list C13.Model.fhit * list C13.Model.fhit * list Z :=
+  match C13.Model.best_of (C13.Model.rank_order g) with
+  | None => s
+  | Some best => fold_left (C13.Model.removal_step best) (C13.Model.rank_order g) s
+  end.
+Definition filter_gene_unrepaired (rho : Z -> Z) (eqg : list Z) (results mine0 : list C13.Model.fhit) : res (list Z * list Z) :=
+  let mine := map (rerank rho) mine0 in
+  if negb (C13.Model.competing eqg mine) then Ok (map C13.Model.f_id results, map C13.Model.f_id mine) else
+  match C13.Model.overlapping_groups mine with
+  | Err k => Err k
+  | Ok groups =>
+    let '(results', mine', _) := fold_left group_pass_unrepaired groups (map (rerank rho) results, mine, []) in
+    match mine' with
+    | [] => Err E_Assert
+    | _ => Ok (map C13.Model.f_id results', map C13.Model.f_id mine')
+    end
+  end.
 
 (* ------------------------------------------------------------------ CDSResults.annotate (cluster_prediction.py) *)
 (* for cluster_type, matching_domains in self.definition_domains.items():      (dict: insertion order, fixed)
-       for domain in matching_domains:                                          (Set[str]: hash order `o`)
-           self.cds.gene_functions.add(GeneFunction.CORE, tool, domain, cluster_type)
+       for domain in sorted(matching_domains):                                  (Set[str] enumerated as `o`, sorted:
+           self.cds.gene_functions.add(GeneFunction.CORE, tool, domain, cluster_type)    repair of annotate_definition_domains_set_order)
    result: the CORE gene functions (domain, cluster type) in the order they are added = the order of the
    gene_functions qualifier of the CDS in the GenBank output *)
 Definition annotate_core (defs : list (list Z * list (list Z))) : list (list Z * list Z) :=
-  flat_map (fun d : list Z * list (list Z) => map (fun dom => (dom, fst d)) (list_of_set (snd d))) defs.
-(* the proposed repair: `for domain in sorted(matching_domains)` *)
-Definition annotate_core_sorted (defs : list (list Z * list (list Z))) : list (list Z * list Z) :=
   flat_map (fun d : list Z * list (list Z) => map (fun dom => (dom, fst d)) (sorted_set (snd d))) defs.
+(* the code before the repair: `for domain in matching_domains` *)
+Definition annotate_core_unrepaired (defs : list (list Z * list (list Z))) : list (list Z * list Z) :=
+  flat_map (fun d : list Z * list (list Z) => map (fun dom => (dom, fst d)) (list_of_set (snd d))) defs.
 
 (* ------------------------------------------------------------------ stage 4 with explicit enumerators *)
 (* formation.py again, this time with EVERY iteration over a Python set made explicit: `en k s` is the order in
